@@ -474,7 +474,10 @@ func (c *ClientConn) SendUpstreamOpenRequest(ctx context.Context, req *message.U
 	if err != nil {
 		return nil, err
 	}
-	c.openUpstream(ctx, req.QoS, res.AssignedStreamID, res.AssignedStreamIDAlias)
+	if res.ResultCode == message.ResultCodeSucceeded {
+		// a refused open carries no alias: registering its zero value would replace the tables of the stream that holds alias 0
+		c.openUpstream(ctx, req.QoS, res.AssignedStreamID, res.AssignedStreamIDAlias)
+	}
 
 	return res, nil
 }
@@ -494,7 +497,9 @@ func (c *ClientConn) SendUpstreamResumeRequest(ctx context.Context, req *message
 		return nil, err
 	}
 
-	c.openUpstream(ctx, qoS, req.StreamID, res.AssignedStreamIDAlias)
+	if res.ResultCode == message.ResultCodeSucceeded {
+		c.openUpstream(ctx, qoS, req.StreamID, res.AssignedStreamIDAlias)
+	}
 
 	return res, nil
 }
